@@ -28,7 +28,7 @@ theorem hIter_reject_of_not_le {σ : Type} (P : HParams α n) (Kn : HKernel α n
   exact ⟨_, rfl, rfl, rfl, rfl⟩
 
 theorem rk23Iter_reject_of_not_le {σ : Type} (P : R23Params α n) (f : Rhs α n) (ob : Obs σ α n)
-    (s : R23State σ α n) (hg : rk23Guard P s = none) (hne : ¬ (rk23Trial P f s (rk23Adjust P s)).err ≤ P.one) :
+    (s : R23State σ α n) (hg : rk23Guard P s = none) (hne : ¬ (rk23Trial P f s (rk23Adjust P s) (rk23Last P s)).err ≤ P.one) :
     ∃ s', rk23Iter P f ob s = .inl s' ∧ s'.x = s.x ∧ s'.y = s.y := by
   unfold rk23Iter
   rw [hg]
@@ -139,9 +139,9 @@ theorem c04_accept_finite_dop853 (atol rtol : Vec α n) (S : D8S α n) (y : Vec 
   c04_finiteGuard_accept S.c.k5 _ one hinf hacc
 
 /-- RK23: the error test passes only for a finite candidate state `yt` -/
-theorem c04_accept_finite_rk23 {σ : Type} (P : R23Params α n) (f : Rhs α n) (s : R23State σ α n) (h : α)
-    (hinf : ¬ ((Num.one / Num.zero : α) ≤ P.one)) (hacc : (rk23Trial P f s h).err ≤ P.one) :
-    vecFinite (rk23Trial P f s h).o.yt = true :=
+theorem c04_accept_finite_rk23 {σ : Type} (P : R23Params α n) (f : Rhs α n) (s : R23State σ α n) (h : α) (last : Bool)
+    (hinf : ¬ ((Num.one / Num.zero : α) ≤ P.one)) (hacc : (rk23Trial P f s h last).err ≤ P.one) :
+    vecFinite (rk23Trial P f s h last).o.yt = true :=
   c04_finiteGuard_accept _ _ P.one hinf hacc
 
 end Ctl
